@@ -168,9 +168,17 @@ def write_world(d: Path, w: Dict[str, Any]) -> Path:
     if has_pool:
         rhead.append("allows_pooling")
     rows = []
-    for r in w["requests"]:
+
+    def stamp(t, k):
+        if not w.get("iso_times") or k % 3 == 2:
+            return t
+        import datetime as _dt
+
+        return _dt.datetime.utcfromtimestamp(int(t)).isoformat() + [".600000", ".500000", ".999999", ".25"][k % 4]
+
+    for k_r, r in enumerate(w["requests"]):
         row = [r["id"], "" if r.get("malformed") else f"{r['o'][0]:.7f}", f"{r['o'][1]:.7f}", f"{r['d'][0]:.7f}", f"{r['d'][1]:.7f}",
-               r["dep"], r.get("pax", 1)]
+               stamp(r["dep"], k_r), r.get("pax", 1)]
         if fleet_col:
             row.append(r.get("fleet") or "")
         if has_pool:
@@ -205,7 +213,7 @@ def write_world(d: Path, w: Dict[str, Any]) -> Path:
         csv(
             d / "charging_prices" / "prices.csv",
             ["time", key, "charger_id", "price_kwh"],
-            [(p["time"], p["target"], p["charger_id"], p["price"]) for p in w["prices"]],
+            [(stamp(p["time"], k_p), p["target"], p["charger_id"], p["price"]) for k_p, p in enumerate(w["prices"])],
         )
         inp["charging_price_file"] = "prices.csv"
     if w.get("rate") is not None:
